@@ -15,9 +15,10 @@ import (
 // cancelled at an arbitrary instant (or never), the clock FREE (every reading is an arbitrary later
 // instant: the deadline / timeout may go by between any two statements of the wrapper), nobody ever
 // signalling.  When the call returns:
-//   a listener iff ok; every listener the delegate granted during the call is either the one handed
-//   to the caller or has been completed - a call that reports failure (timeout, deadline, cancellation)
-//   holds no capacity;  completing the returned listener completes the delegate's exactly once.
+//
+//	a listener iff ok; every listener the delegate granted during the call is either the one handed
+//	to the caller or has been completed - a call that reports failure (timeout, deadline, cancellation)
+//	holds no capacity;  completing the returned listener completes the delegate's exactly once.
 func verifWrapperAcquire(kind int) {
 	d := &recLimiter{}
 	var lim core.Limiter
